@@ -73,24 +73,22 @@ def run(chk):
         full = []
         oneblk = []
         pads = []
-        for b in reach:
-            for ev in f.blocks[b]['ev']:
-                if ev['k'] != 'call':
-                    continue
-                e = ev['e']
-                nm = e.get('fn')
-                if nm is None and 'callee' in e:
-                    c = cf.strip_casts(e['callee'])
-                    nm = c.get('f') if c.get('k') == 'mem' else None
-                if nm == 'memset':
-                    pads.append((cf.evalc(e['a'][1]), b))
-                    continue
-                if not nm or nm in ('imb_set_errno', 'safe_memcpy', 'imb_clear_mem', 'memcpy'):
-                    continue
-                t = algo_token(nm)
-                if t is None:
-                    continue
-                (oneblk if 'one_block' in nm else full).append((nm, t, ev['loc']))
+        # calls reached under this algorithm, in the function itself and in the helpers it calls with the algorithm / pad constants
+        for rec in D.collect_calls(P, tu, f.name, env):
+            nm = rec['name']
+            if nm is None and rec.get('callee') is not None:
+                c = cf.strip_casts(rec['callee'])
+                nm = c.get('f') if c.get('k') == 'mem' else None
+            if nm == 'memset':
+                if len(rec['args']) > 1:
+                    pads.append((cf.evalc(rec['args'][1], rec.get('env')), rec['bid']))
+                continue
+            if not nm or nm in ('imb_set_errno', 'safe_memcpy', 'imb_clear_mem', 'memcpy'):
+                continue
+            t = algo_token(nm)
+            if t is None:
+                continue
+            (oneblk if 'one_block' in nm else full).append((nm, t, rec['loc']))
         if sel is not None and sel[0] == 'plain':
             full = []
         for nm, t, loc in full + oneblk:
@@ -111,7 +109,10 @@ def run(chk):
         okc = False
         for b, blk_ in f.blocks.items():
             for ev in blk_['ev']:
-                if ev['k'] == 'call' and ev['e'].get('fn') == 'memset' and cf.evalc(ev['e']['a'][1]) == const:
+                # the pad block is built here (memset) or in a helper that receives the pad byte as a constant argument
+                if ev['k'] == 'call' and ((ev['e'].get('fn') == 'memset' and cf.evalc(ev['e']['a'][1]) == const) or
+                                          (ev['e'].get('fn') and P.has(tu, ev['e']['fn']) and
+                                           any(cf.evalc(a) == const for a in ev['e'].get('a', [])))):
                     # dominated by `outp != NULL` test and all one-block calls dominated by this block write to outp
                     conds = [guards.canon(f.blocks[d]['term'].get('fullcond')) for d in dom.get(b, ()) if (f.blocks[d].get('term') or {}).get('kind') == 'IfStmt' and f.blocks[d]['succ'][0] in dom[b]]
                     outs = set()
